@@ -147,6 +147,21 @@ impl Visitor<Diagnostic> for LibraryRenderer {
         }
     }
 
+    fn visit_enumerated_value(
+        &mut self,
+        node: &EnumeratedValue,
+    ) -> Result<Self::Value, Diagnostic> {
+        match &node.type_name {
+            Some(type_name) => {
+                // The type prefix and the value are one literal
+                let val = format!("{}#{}", type_name.name.original(), node.value.original());
+                self.write_ws(val.as_str());
+                Ok(())
+            }
+            None => node.recurse_visit(self),
+        }
+    }
+
     fn visit_real_literal(&mut self, node: &RealLiteral) -> Result<Self::Value, Diagnostic> {
         let mut val = String::new();
         if let Some(data_type) = &node.data_type {
